@@ -2,6 +2,7 @@
 kernel of engine.py, and runs scenarios on them.  No line of loky is edited or re-implemented."""
 import builtins
 import gc
+import weakref
 import json
 import os
 import pickle
@@ -168,7 +169,8 @@ class World:
         self.executors.append({"flags": ex._flags, "processes": ex._processes, "pending": ex._pending_work_items,
                                "running": ex._running_work_items, "max_workers0": ex._max_workers,
                                "id": getattr(ex, "executor_id", None), "cq_sem": cq._sem,
-                               "wakeup": w, "rq_pipe": rq._reader.pipe, "cq_pipe": cq._reader.pipe})
+                               "wakeup": w, "rq_pipe": rq._reader.pipe, "cq_pipe": cq._reader.pipe,
+                               "ref": weakref.ref(ex), "cq": cq})
 
     # -- child processes ----------------------------------------------------------
     def before_child_start(self, proc):
@@ -467,7 +469,14 @@ def run_scenario(scen, chooser_factory, max_steps=4000, observe=True):
                         "kill": fl.kill_workers, "nproc": len(info["processes"]),
                         "pending": len(info["pending"]), "running": len(info["running"]),
                         "mgr": "none" if mgr is None else ("done" if mgr.done else "running"),
-                        "alive_pids": sorted(p.pid for p in list(info["processes"].values()) if p.alive)})
+                        "alive_pids": sorted(p.pid for p in list(info["processes"].values()) if p.alive),
+                        # what a thread inside _resize reads (harness/props: lock-step with LokyModel/Resize.lean)
+                        "id": getattr(info["ref"](), "executor_id", None),
+                        "procs": [[p.pid, bool(p.alive)] for p in list(info["processes"].values())],
+                        "mw": getattr(info["ref"](), "_max_workers", None),
+                        "started": getattr(info["ref"](), "_executor_manager_thread", None) is not None,
+                        "feeder": getattr(info["cq"], "_thread", None) is not None,
+                        "nextpid": eng.next_pid})
         o["ex"] = exs
         o["in_body"] = sorted((a.name, a.in_body) for a in eng.actors.values()
                               if getattr(a, "in_body", None) is not None and not a.killed and not a.done)
